@@ -14,6 +14,10 @@ static QJsonObject op_json(const FOp &o)
         j["n"] = o.n;
         if (o.cls)
             j["cls"] = o.cls;
+        if (o.cat)
+            j["cat"] = o.cat;
+        if (o.fmt)
+            j["fmt"] = o.fmt;
     } else if (o.k == "advance") {
         if (o.ms)
             j["ms"] = (qint64)o.ms;
@@ -41,6 +45,8 @@ static FOp op_from(const QJsonObject &j)
     o.k = j["k"].toString().toStdString();
     o.n = j["n"].toInt();
     o.cls = j["cls"].toInt();
+    o.cat = j["cat"].toInt();
+    o.fmt = j["fmt"].toInt();
     o.ms = (int64_t)j["ms"].toDouble();
     o.days = j["days"].toInt();
     o.to = j["to"].toInt();
@@ -76,6 +82,12 @@ QJsonObject to_json(const FPlan &p)
         o["sibling"] = QString::fromStdString(p.sibling);
     if (p.obstacle)
         o["obstacle"] = p.obstacle;
+    if (p.tz_min)
+        o["tz_min"] = p.tz_min;
+    if (p.pre_bytes) {
+        o["pre_bytes"] = p.pre_bytes;
+        o["pre_age_days"] = p.pre_age_days;
+    }
     o["start_ms_of_day"] = p.start_ms_of_day;
     QJsonArray ops;
     for (auto &op : p.ops)
@@ -109,6 +121,9 @@ bool from_json(const QJsonObject &o, FPlan &p)
         p.foreign.push_back(v.toInt());
     p.sibling = o["sibling"].toString().toStdString();
     p.obstacle = o["obstacle"].toInt();
+    p.tz_min = o["tz_min"].toInt();
+    p.pre_bytes = o["pre_bytes"].toInt();
+    p.pre_age_days = o["pre_age_days"].toInt();
     p.start_ms_of_day = o["start_ms_of_day"].toInt(12 * 3600 * 1000);
     for (auto v : o["ops"].toArray())
         p.ops.push_back(op_from(v.toObject()));
@@ -290,8 +305,22 @@ FPlan generate(const std::string &prop, const std::string &tier, uint64_t seed)
         p.gran_ms = r.chance(1, 3) ? 1000 : 1;
     }
 
-    if ((prop == "C05" || prop == "C10") && r.chance(1, 8))
+    if ((prop == "C05" || prop == "C10" || prop == "C06") && r.chance(1, 8))
         p.obstacle = (int)r.range(1, 3);
+    {
+        static const int tzs[] = { 0, 0, 0, 540, -300, 345, -720, 840 };
+        p.tz_min = pick(r, tzs);
+    }
+    if (r.chance(1, prop == "C08" ? 3 : 6)) {
+        static const int pb[] = { 1, 17, 300, 5000, 65535, 65536, 70001, 200000 };
+        p.pre_bytes = pick(r, pb);
+        if (prop == "C08" && thorough && r.chance(1, 10))
+            p.pre_bytes = 3 << 20;
+        if (prop == "C10" && p.pre_bytes > 70001)
+            p.pre_bytes = 70001;
+        p.pre_age_days = r.chance(1, 2) ? 0 : (int)r.range(1, 3);
+    }
+    bool big10 = prop == "C10" && (p.options & 4) && r.chance(1, 4);
     for (int i = 0; i < nops; i++) {
         int c = (int)r.below(100);
         if (c < 62) {
@@ -307,7 +336,17 @@ FPlan generate(const std::string &prop, const std::string &tier, uint64_t seed)
             }
             if (prop == "C10" && n > 3000)
                 n = (int)r.range(0, 200);
-            p.ops.push_back(wr(n, cls));
+            if (big10 && r.chance(1, 3)) {
+                // poorly compressible records whose compressed form exceeds the 16 KiB stream buffer
+                n = (int)r.range(24000, 60000);
+                cls = 3;
+            }
+            FOp w = wr(n, cls);
+            if (r.chance(1, 5))
+                w.cat = 1;
+            if (r.chance(1, 6))
+                w.fmt = 1;
+            p.ops.push_back(w);
         } else if (c < 80) {
             gen_advance(r, p.ops, daily || prop == "C09");
         } else if (c < 92) {
